@@ -32,22 +32,43 @@ var c06Seeds = []string{
 	"    é:€  1 😀",
 }
 
-// c06Mutate replaces k bytes of the seed (positions case-split, increasing) by arbitrary
-// bytes: all single / double byte substitutions, so an invalid UTF-8 byte, a control
-// character, a delimiter or a NUL lands anywhere in a realistic line (also in the middle of a
-// multi-byte character of the last seed).
-func c06Mutate(seed string, k int) string {
+// extra seed lines of the thorough tier
+var c06SeedsLong = []string{
+	"    [a:b]  -1 USD @@ 2 EUR = 3",
+	"    a:b  1E3 \"x\" ; t:",
+	"2024/1/5=2024/1/6 * x",
+	"P 2024-01-01 USD 1,5 EUR",
+	"include ~/x/*.journal",
+	"alias a:b = c:d",
+	"~ monthly from 2024",
+	"  ; t: v, é:€",
+	"    a:b\t1 USD\r",
+	"Y2024",
+}
+
+// the kinds of mutation
+const (
+	c06Substitute = iota // one byte replaced by an arbitrary byte
+	c06Insert            // an arbitrary byte inserted at any place (also at the end)
+	c06Delete            // one byte deleted (splits multi-byte characters of the non-ASCII seeds)
+)
+
+// c06Mutate applies one mutation of the given kind at a case-split place: an invalid UTF-8
+// byte, a control character, a delimiter or a NUL lands anywhere in a realistic line (also in
+// the middle of a multi-byte character).
+func c06Mutate(seed string, kind int) string {
 	b := []byte(seed)
-	from := 0
-	for m := 0; m < k; m++ {
-		if from >= len(b) {
-			break
-		}
-		at := from + zzverif.Choice("at"+zzverif.Itoa(m), len(b)-from)
-		b[at] = zzverif.Byte("m" + zzverif.Itoa(m))
-		from = at + 1
+	switch kind {
+	case c06Substitute:
+		at := zzverif.Choice("at", len(b))
+		b[at] = zzverif.Byte("m")
+		return string(b)
+	case c06Insert:
+		at := zzverif.Choice("at", len(b)+1)
+		return string(b[:at]) + string([]byte{zzverif.Byte("m")}) + string(b[at:])
 	}
-	return string(b)
+	at := zzverif.Choice("at", len(b))
+	return string(b[:at]) + string(b[at+1:])
 }
 
 const c06NHelpers = 13
@@ -145,12 +166,14 @@ func verifC06Line(maxN int) {
 
 // VerifC06LineMut: every helper on every seed line with one arbitrary byte substituted at any
 // place, cursor coordinates 0..255 or 2^32-256..2^32-1.
-func VerifC06LineMut() { verifC06LineMut(1) }
+func VerifC06LineMut() { verifC06LineMut(c06Seeds, 1) }
 
-// VerifC06LineMutLong: two substituted bytes.
-func VerifC06LineMutLong() { verifC06LineMut(2) }
+// VerifC06LineMutLong: twice as many seed lines; substitution, insertion or deletion of one byte.
+func VerifC06LineMutLong() {
+	verifC06LineMut(append(append([]string(nil), c06Seeds...), c06SeedsLong...), 3)
+}
 
-func verifC06LineMut(k int) {
+func verifC06LineMut(seeds []string, kinds int) {
 	h := zzverif.Choice("helper", c06NHelpers+1)
 	if h == c06NHelpers {
 		// isTransactionHeaderLine matches a regular expression; the engine's regexp model needs a
@@ -166,7 +189,11 @@ func verifC06LineMut(k int) {
 		zzverif.Reach("C06.linemut.h" + zzverif.Itoa(h))
 		return
 	}
-	seed := c06Seeds[zzverif.Choice("seed", len(c06Seeds))]
-	c06Helper(h, c06Mutate(seed, k), false, c06SmallPos())
+	seed := seeds[zzverif.Choice("seed", len(seeds))]
+	kind := c06Substitute
+	if kinds > 1 {
+		kind = zzverif.Choice("kind", kinds)
+	}
+	c06Helper(h, c06Mutate(seed, kind), false, c06SmallPos())
 	zzverif.Reach("C06.linemut.h" + zzverif.Itoa(h))
 }
